@@ -217,7 +217,12 @@ func driveC01(seed int64, tier, out, replay string) {
 	obs.Evaluations = idx
 	obs.DistinctNontrivial = len(distinct)
 	obs.Rule = "generated worlds (1-3 services, Node types split across services, value types, unions, lists with duplicates, nulls) x generated valid operations (depth<=4, aliases, arguments, variables, inline and named fragments, __typename, literal directives, mutations) x 5 gateway configurations; non-trivial = the plan touches at least 2 services; distinct by (world, operation text)"
-	hx.WriteCases(out, "From Pebbles Require Import Base.Json Exec.Scrub Exec.PointData Corr.C13 Corr.C01.\nFrom Coq Require Import List String. Import ListNotations.\nOpen Scope string_scope.\n", "c1case", coq, "mismatches")
+	nFind := 150
+	if tier == "thorough" {
+		nFind = 1500
+	}
+	coq = append(coq, findCases(hx.NewRand(seed+77), nFind, obs)...)
+	hx.WriteCases(out, "From Pebbles Require Import Base.Json Exec.Scrub Exec.PointData Exec.Points Corr.C13 Corr.C01.\nFrom Coq Require Import List String. Import ListNotations.\nOpen Scope string_scope.\n", "c1case", coq, "mismatches")
 	obs.Write(out)
 }
 
